@@ -225,7 +225,7 @@ func c04(c *core.Ctx) {
 				}
 			}
 			for _, fn := range sinks {
-				for i, r := range core.Returns(fn) {
+				for i, r := range core.ErrReturns(fn) {
 					ev := r.Results[len(r.Results)-1]
 					key := fmt.Sprintf("%s:return#%d", core.FuncName(fn), i)
 					if t.At(ev, r) {
@@ -401,7 +401,7 @@ func c04(c *core.Ctx) {
 				key := fmt.Sprintf("%s:after-ctx-err#%d", core.FuncName(fn), n)
 				v := core.Walk(core.Loc{B: ef.B.Succs[ef.Succ], Idx: 0}, nil, nil)
 				bad := false
-				for _, r := range core.Returns(fn) {
+				for _, r := range core.ErrReturns(fn) {
 					if !v[r] {
 						continue
 					}
@@ -465,7 +465,7 @@ func c04(c *core.Ctx) {
 			if !isClientSide || fn.Parent() != nil {
 				continue
 			}
-			for i, r := range core.Returns(fn) {
+			for i, r := range core.ErrReturns(fn) {
 				ev := r.Results[len(r.Results)-1]
 				if !core.IsErrorType(ev.Type()) {
 					continue
